@@ -94,7 +94,8 @@ Record getplan := GetPlan { gp_f : idx; gp_s : idx; gp_n : idx }.
 
 Definition prep_getitem (shape : idx) (ix : index) : res getplan :=
   let items := items_of_index ix in
-  if (3 <? Z.of_nat (length items)) then Err "unmodelled: more than three index items"
+  (* only the three spatial dimensions may be indexed (fix D92) *)
+  if (3 <? Z.of_nat (length items)) then Err "IndexError"
   else
   bind (check_items shape 0 items) (fun sl =>
   let '(n0, n1, n2) := shape in
@@ -701,6 +702,23 @@ Definition geom_with_array (g : geom) (ashape : list Z) (a : array) (isint : boo
   then Ok (Vol (g_aff g) (g_shape g) ch a isint (g_patient g) (g_for g))
   else Err "ValueError".
 
+(* squeeze_channel(channel_descriptors) *)
+Definition vol_squeeze_channel (v : vol) (ds : option (list Z)) : res vol :=
+  let chans := v_chans v in
+  let single k := Z.of_nat (length (snd (nth (Z.to_nat k) chans (0, [])))) =? 1 in
+  let mk plan := Vol (v_aff v) (v_shape v) (plan_chans false plan chans)
+                     (fun j c => v_arr v j (expand_cidx false plan c))
+                     (v_isint v) (v_patient v) (v_for v) in
+  let dims := zrange (Z.of_nat (length chans)) in
+  match ds with
+  | None => Ok (mk (map (fun k => if single k then Some 0 else None) dims))
+  | Some l =>
+      bind (chan_indices chans l) (fun ks =>
+      if existsb (fun k => negb (single k)) ks then Err "RuntimeError"
+      else if has_dup l then Err "ValueError"          (* numpy squeeze: duplicate axis *)
+      else Ok (mk (map (fun k => if existsb (Z.eqb k) ks then Some 0 else None) dims)))
+  end.
+
 Definition vol_copy (v : vol) : vol :=
   Vol (v_aff v) (v_shape v) (v_chans v) (v_arr v) (v_isint v) (v_patient v) (v_for v).
 
@@ -709,7 +727,8 @@ Inductive op :=
 | Copy
 | WithArray (ashape : list Z) (a : array) (isint : bool) (chans : option (list chan))
 | GetChannel (keep : bool) (sel : list (Z * Z))
-| PermuteChannels (ds : list Z).
+| PermuteChannels (ds : list Z)
+| SqueezeChannel (ds : option (list Z)).
 
 Definition step_tr (v : vol) (o : op) : res (vol * imap) :=
   match o with
@@ -718,6 +737,7 @@ Definition step_tr (v : vol) (o : op) : res (vol * imap) :=
   | WithArray sh a i ch => bind (vol_with_array v sh a i ch) (fun v' => Ok (v', imap_id))
   | GetChannel keep sel => bind (vol_get_channel v keep sel) (fun v' => Ok (v', imap_id))
   | PermuteChannels ds => bind (vol_permute_channels v ds) (fun v' => Ok (v', imap_id))
+  | SqueezeChannel ds => bind (vol_squeeze_channel v ds) (fun v' => Ok (v', imap_id))
   end.
 
 Definition step (v : vol) (o : op) : res vol :=
@@ -734,6 +754,13 @@ Definition gstep (g : geom) (o : op) : option (res geom) :=
 (* a refused operation leaves the object as it was and the history continues *)
 Definition step_skip (v : vol) (o : op) : vol := match step v o with Ok v' => v' | Err _ => v end.
 Definition run (v : vol) (ops : list op) : vol := fold_left step_skip ops v.
+
+(* the geometry-only object driven through the same history: it follows every spatial
+   operation and copy, is left alone by channel operations and with_array, and stays as it
+   was when it refuses *)
+Definition gstep_skip (g : geom) (o : op) : geom :=
+  match gstep g o with Some (Ok g') => g' | _ => g end.
+Definition grun (g : geom) (ops : list op) : geom := fold_left gstep_skip ops g.
 
 (* traced history: the composed index map *)
 Definition step_skip_tr (s : vol * imap) (o : op) : vol * imap :=
@@ -840,4 +867,4 @@ Arguments OGet {Vx}. Arguments OFlip {Vx}. Arguments OPermute {Vx}. Arguments OS
 Arguments OPad {Vx}. Arguments OPadTo {Vx}. Arguments OCropTo {Vx}. Arguments OPadOrCropTo {Vx}.
 Arguments OOrient {Vx}. Arguments OHanded {Vx}.
 Arguments Sp {Vx}. Arguments Copy {Vx}. Arguments WithArray {Vx}. Arguments GetChannel {Vx}.
-Arguments PermuteChannels {Vx}.
+Arguments PermuteChannels {Vx}. Arguments SqueezeChannel {Vx}. Arguments ORand {Vx}.
